@@ -24,13 +24,13 @@ FirstAt(cov, la, lo) == IF \E i \in 1..Len(cov) : cov[i].lat = la /\ cov[i].lon 
                         THEN CHOOSE i \in 1..Len(cov) : cov[i].lat = la /\ cov[i].lon = lo
                                                        /\ \A j \in 1..(i - 1) : ~(cov[j].lat = la /\ cov[j].lon = lo)
                         ELSE 0
-One(cov, p) ==
+CovOne(cov, p) ==
   LET la == Centi(p.lat)  lo == Centi(p.lon)  i == FirstAt(cov, la, lo) IN
   IF i = 0 THEN Append(cov, [lat |-> la, lon |-> lo, seen |-> 0, icao |-> p.icao])
   ELSE IF cov[i].icao # p.icao THEN [cov EXCEPT ![i].seen = @ + 1, ![i].icao = p.icao]
   ELSE cov
 RECURSIVE Populate(_, _)
-Populate(cov, ps) == IF ps = <<>> THEN cov ELSE Populate(One(cov, Head(ps)), Tail(ps))
+Populate(cov, ps) == IF ps = <<>> THEN cov ELSE Populate(CovOne(cov, Head(ps)), Tail(ps))
 
 \* properties of the fold itself
 Idempotent(cov, ps) == Populate(Populate(cov, ps), ps) = Populate(cov, ps) \/ Len(ps) > 1
